@@ -48,5 +48,14 @@ for p in sorted(glob.glob(os.path.join(R.VERIF, 'benign', '*.patch'))):
         bad += bool(fired)
     finally:
         shutil.rmtree(sc, ignore_errors=True)
-json.dump(res, open(os.path.join(R.VERIF, 'benign', 'results.json'), 'w'), indent=1, sort_keys=True)
+import fcntl
+rp = os.path.join(R.VERIF, 'benign', 'results.json')
+with open(rp + '.lock', 'w') as lk:
+    fcntl.flock(lk, fcntl.LOCK_EX)
+    allres = {}
+    if sub and os.path.exists(rp):
+        allres = json.load(open(rp))
+    allres.update(res)
+    allres = {k: v for k, v in allres.items() if os.path.exists(os.path.join(R.VERIF, 'benign', k + '.patch'))}
+    json.dump(allres, open(rp, 'w'), indent=1, sort_keys=True)
 sys.exit(1 if bad else 0)
